@@ -367,6 +367,13 @@ def run_field(events, key, D, env, cd0, ax0, counters=None, log=None,
                 else:
                     st.cd = h
                     st.last_write = "discontinuous:%s" % hc
+                if st.cd >= 1:
+                    # every DoF on the cells of halo level 1 was computed,
+                    # which includes annexed DoFs (keeps the invariant
+                    # 'clean depth >= 1 implies annexed clean' when a test
+                    # algorithm passes one field to kernels that disagree
+                    # on its continuity)
+                    st.ax = True
                 st.unchecked_write = True
         else:   # DoF loop
             b = ev["bound"]
